@@ -1,8 +1,3 @@
-import Driver.Util
-/-! Line-protocol driver for C04 (not built yet). -/
-namespace Driver.C04
-def step (_line : String) : String := "bad-op"
-end Driver.C04
-
-def main : IO Unit := do
-  Driver.loop (← IO.getStdin) (← IO.getStdout) Driver.C04.step
+import Driver.ExecRun
+/-! Driver for C04: the shared execution-model driver (`Driver/ExecRun.lean`). -/
+def main : IO Unit := Driver.ExecRun.main
